@@ -177,7 +177,21 @@ func sharedState(pkg *ast.Package) (vars, fields map[string]bool) {
 					if x.Op == token.AND {
 						mark(x.X)
 					}
+				case *ast.SliceExpr:
+					// slicing a package-level array hands out a writable reference to it
+					mark(x.X)
 				case *ast.CallExpr:
+					// a package-level variable passed to a function may be mutated through it
+					for _, a := range x.Args {
+						switch y := a.(type) {
+						case *ast.Ident:
+							if pkgVars[y.Name] {
+								vars[y.Name] = true
+							}
+						case *ast.SliceExpr:
+							mark(y.X)
+						}
+					}
 					// a method called on a field or package variable may mutate it (sync.Once.Do,
 					// Mutex.Lock, map stores through helper methods ...)
 					if se, ok := x.Fun.(*ast.SelectorExpr); ok {
